@@ -139,6 +139,8 @@ impl Program {
     /// Source text, the line of body statement i (1-based), and the line of the return value.
     pub fn render(&self) -> (String, Vec<usize>, usize) {
         let mut lines: Vec<String> = ty::PRELUDE.lines().map(|s| s.to_string()).collect();
+        lines.push("struct GIn { x: i32, y: u8 }".to_string());
+        lines.push("struct GOut { id: i32, inner: GIn, items: [2]GIn, link: &GIn }".to_string());
         for f in &self.funcs {
             let ps: Vec<String> = f.params.iter().enumerate().map(|(i, t)| format!("p{}: {}", i, ty::syntax(t))).collect();
             match &f.ret {
@@ -417,6 +419,15 @@ impl Gen {
         prologue.push("\tvar arr: [3]i32 = [1i32, 2i32, 3i32];".to_string());
         prologue.push("\tvar s: S = S { m: 4i32 };".to_string());
         prologue.push("\tvar w: W = W { m: 5i32 };".to_string());
+        // nested places: member of member, member of an element of a member array, member through a pointer member
+        prologue.push("\tvar gin: GIn = GIn { x: 6i32, y: 7u8 };".to_string());
+        prologue.push(
+            "\tvar o: GOut = GOut { id: 1i32, inner: GIn { x: 2i32, y: 3u8 }, items: [GIn { x: 4i32, y: 5u8 }, GIn { x: 8i32, y: 9u8 }], link: &gin };"
+                .to_string(),
+        );
+        for (place, p) in [("o.id", "i32"), ("o.inner.x", "i32"), ("o.inner.y", "u8"), ("o.items[1usize].x", "i32"), ("o.items[0usize].y", "u8"), ("o.link.x", "i32"), ("o.link.y", "u8")] {
+            self.vars.push(Var { name: place.to_string(), ty: prim(p) });
+        }
         let mut body = Vec::new();
         for _ in 0..statements {
             body.push(self.statement(depth));
